@@ -144,8 +144,10 @@ ShapeInit == \E s \in Shapes, mode \in LeafModes :
 \* ---- the same name more than once in one program: every occurrence is its own invocation (no result is remembered) -------
 DupProgs(mode) == LET A == Leaf(1, mode)  B == Leaf(2, mode)  RA == <<"ref", NAME[1]>>  CA == <<"call", NAME[1], <<>>>> IN
   << <<"bin", "&&", A, A>>, <<"list", <<A, B, A>>>>, <<"stmt", <<RA, CA>>>>, <<"stmt", <<CA, RA, RA>>>>, <<"tern", A, A, A>>,
-     <<"bin", "==", RA, RA>>, <<"call", "G", <<RA, RA>>>>, <<"map", <<<<RA, CA>>, <<B, RA>>>>>>, <<"stmt", <<<<"bin", "=", <<"ref", "x">>, RA>>, RA>>>> >>
-DupInit == \E mode \in LeafModes, k \in 1..9, script \in Scripts(2), fault \in {NoFault} \cup {<<j, "err">> : j \in 1..4} \cup {<<2, "panic">>} :
+     <<"bin", "==", RA, RA>>, <<"call", "G", <<RA, RA>>>>, <<"map", <<<<RA, CA>>, <<B, RA>>>>>>, <<"stmt", <<<<"bin", "=", <<"ref", "x">>, RA>>, RA>>>>,
+     \* an argument rebinds the callee's own name: the callee is resolved after the arguments (the name then is a variable: no such function)
+     <<"call", NAME[1], <<<<"bin", "=", RA, <<"lit", VBool(TRUE)>>>>>>>>, <<"call", NAME[1], <<B, <<"bin", "=", RA, B>>>>>> >>
+DupInit == \E mode \in LeafModes, k \in 1..11, script \in Scripts(2), fault \in {NoFault} \cup {<<j, "err">> : j \in 1..4} \cup {<<2, "panic">>} :
              Start(EnvOf(2, script, fault), DupProgs(mode)[k], CtxOf(2))
 Init == IF Family = "assign" THEN AssignInit ELSE IF Family = "dispatch" THEN DispatchInit ELSE IF Family = "dup" THEN DupInit ELSE ShapeInit
 VALToJson(st, v) == IF st = "ok" THEN v ELSE <<"none">>
